@@ -201,6 +201,12 @@ let () =
       else if tok_of_bool r'.r_compressed <> comp then Diff "model compressed flag differs"
       else Pass (List.length ops_l >= 3)
     | _ -> Diff "malformed line");
+  register "FWR" (fun i o -> match i, o with
+    | [_; _; _; _], [wa; wb; ra; rb] ->
+      if wa <> wb then Viol "compression writer after Reset differs from a fresh one (result, error or bytes)"
+      else if ra <> rb then Viol "decompression reader after Reset differs from a fresh one"
+      else Pass true
+    | _ -> Diff "malformed line");
   register "U8RS" (fun i o -> match i, o with
     | [_; _; _], [a; f; x; y] ->
       if a <> f then Viol "UTF8Reader after Reset differs from a fresh one (Valid/Accepted/bytes/error)"
